@@ -10,7 +10,7 @@ KtyVals == {Nat2I(1), Nat2I(2), Nat2I(4), Nat2I(6), Nat2I(0), Nat2I(7), Neg2I(1)
 KidVals == {B0, B1, B12, Ta, Nat2I(1), Nil}
 AlgVals == {Neg2I(7), Nat2I(0), Neg2I(65536), Neg2I(65537), Nat2I(8), I63, Ta, B1, Nil}
 OpsVals == {EmptyArr, Arr(<<Nat2I(1)>>), Arr(<<Nat2I(2), Nat2I(1)>>), Arr(<<Nat2I(10), Ta, Nat2I(1)>>), Arr(<<Nat2I(1), Nat2I(1)>>),
-            Arr(<<Ta, Ta>>), Arr(<<Ta, Tt>>), Arr(<<Nat2I(0)>>), Arr(<<Nat2I(11)>>), Arr(<<Neg2I(65537)>>), Arr(<<I63>>),
+            Arr(<<Ta, Ta>>), Arr(<<Ta, Tt>>), Arr(<<Nat2I(3), Nat2I(4), Nat2I(3)>>), Arr(<<Ta, Nat2I(1), Ta>>), Arr(<<Nat2I(0)>>), Arr(<<Nat2I(11)>>), Arr(<<Neg2I(65537)>>), Arr(<<I63>>),
             Arr(<<B1>>), Arr(<<Nat2I(1), EmptyArr>>), Nat2I(1), Ta, Nil, EmptyMap}
 BivVals == {B0, B1, Ta, Nat2I(1)}
 OtherLabels == {Nat2I(0), Nat2I(6), Neg2I(1), Neg2I(2), Neg2I(3), Neg2I(4), Neg2I(65537), I63max, N63, Ta}
